@@ -51,6 +51,8 @@ def instances(tier):
                 out.append({"kind": "subheader", "gen": 5, "what": what})
             out.append({"kind": "redundant_byte", "gen": 5})
         out.append({"kind": "ability_stride", "gen": g, "delta": 2})
+        for what in ("version", "error"):
+            out.append({"kind": "ext_inner_length", "gen": g, "what": what})
         out.append({"kind": "stride", "gen": 5, "delta": 3 if g == 4 else 6, "what": "zone"})
         out.append({"kind": "stride", "gen": 5, "delta": 2 if g == 4 else 5, "what": "ac"})
         out.append({"kind": "stride", "gen": 5, "delta": 1 if g == 4 else 4, "what": "timer"})
@@ -190,6 +192,49 @@ def _redundant_byte(ctx, p):
     ctx.check(not fails, "free.task_survives", detail="unhandled exception in the receive task")
     for lab in expect_labels("quick"):
         ctx.reach(lab)
+
+
+def _ext_inner_length(ctx, p):
+    """Console-version / AC-error-information answers whose inner text-length byte is free while the frame carries six text
+    bytes: only the frame whose length byte says six is that message. One that announces fewer (bytes left over behind the
+    text) or more (text cut short) is malformed: it is not delivered as a version / error text it does not spell out."""
+    g = Gen(p["gen"])
+    text = list(b"1.2.3b")
+    L = ctx.byte("inner_len")
+    first_byte = 1 if p["what"] == "version" else 0
+    payload = framing.ext(0xFF30 if p["what"] == "version" else 0xFF10, [first_byte, L] + text)
+    fr = _frame(ctx, g.n, 0xB0, 0x90, 5, 0x1F, payload)
+    probe = framing.frame(g.n, 0xB0, 0x80, 9, 0x78, [1, 2, 3])
+    with Rig(ctx, g) as rig:
+        def on_accept(conn):
+            if conn.index == 0:
+                conn.send(SymBytes(fr) if ctx.symbolic else bytes(fr))
+                rig.loop.call_later(1.0, lambda: conn.send(bytes(probe)) if not conn.client_closed else None)
+            else:
+                conn.send(bytes(probe))
+        rig.net.on_accept = on_accept
+        rig.spawn(rig.sock.open_socket())
+        rig.loop.vt_run(8.25)
+        got = list(rig.received)
+        first = [m for _, h, m in got if getattr(m, "unsupported_id", None) != 0x78]
+        probes = [m for _, h, m in got if getattr(m, "unsupported_id", None) == 0x78]
+        ctx.observe("delivered", len(first))
+        detail = {"what": p["what"], "delivered": [repr(getattr(m, "sub_message", m))[:120] for m in first], "conns": len(rig.net.conns)}
+        if _b(L == len(text)):
+            sm = getattr(first[0], "sub_message", None) if first else None
+            txt = (getattr(sm, "versions", None) or [None])[0] if p["what"] == "version" else getattr(sm, "error_info", None)
+            ctx.check(len(first) == 1 and str(txt) == "1.2.3b" and len(rig.net.conns) == 1, "free.header_as_reference", detail=detail)
+        else:
+            ctx.check(first == [], "free.header_as_reference", detail=dict(detail, why="a frame with a wrong inner length was delivered as a message"))
+        ctx.check(len(probes) >= 1 and rig.net.max_open <= 1, "free.recovers", detail=detail)
+        ctx.check(not rig.task_failures(), "free.task_survives", detail="unhandled exception in the receive task")
+    for lab in expect_labels("quick"):
+        ctx.reach(lab)
+
+
+def _b(x):
+    from sx.values import SymBool
+    return bool(x) if isinstance(x, SymBool) else x
 
 
 def _unknown_type(ctx, p):
